@@ -543,6 +543,17 @@ func ZZ_C04_labelsDespiteStaleCanaryNode() {
 	}
 	ds.Status.Canary = &datadoghqv1alpha1.ExtendedDaemonSetStatusCanary{ReplicaSet: rsNew.Name, Nodes: list}
 	ds.Status.State = datadoghqv1alpha1.ExtendedDaemonSetStatusStateCanary
+	// the canary may have been paused right after these pods were created (by the user, or by the replica
+	// set's own condition): it is still the canary, its pods are still labelled
+	switch nondet.String("canaryPaused", "no", "by-annotation", "by-condition") {
+	case "by-annotation":
+		ds.Annotations[datadoghqv1alpha1.ExtendedDaemonSetCanaryPausedAnnotationKey] = "true"
+		ds.Status.State = datadoghqv1alpha1.ExtendedDaemonSetStatusStateCanaryPaused
+	case "by-condition":
+		at := metav1.NewTime(nondet.Base().Add(-time.Minute))
+		rsNew.Status.Conditions = append(rsNew.Status.Conditions, datadoghqv1alpha1.ExtendedDaemonSetReplicaSetCondition{Type: datadoghqv1alpha1.ConditionTypeCanaryPaused, Status: corev1.ConditionTrue, Reason: "ImagePullBackOff", LastTransitionTime: at, LastUpdateTime: at})
+		ds.Status.State = datadoghqv1alpha1.ExtendedDaemonSetStatusStateCanaryPaused
+	}
 	c.Pods = append(c.Pods,
 		zzPod("canary-1", zzNodeName(1), zzRSName, zzHashNew, 0, corev1.PodRunning, true, nondet.Base().Add(-time.Minute)),
 		zzPod("canary-2", zzNodeName(2), zzRSName, zzHashNew, 0, corev1.PodRunning, true, nondet.Base().Add(-time.Minute)))
